@@ -310,6 +310,30 @@ func guardOp(op model.Op, db *model.DB, usesV2 bool) []string {
 			}
 		}
 	}
+	if op.Kind == "BatchGet" && (open("F-KEYCOLLIDE") || open("F-NUMKEYTEXT")) {
+		for _, tb := range op.Batch {
+			bt := db.Tables[tb.Table]
+			if bt == nil {
+				continue
+			}
+			seen := map[string]string{}
+			for ck, it := range bt.Items {
+				seen[implKey(it, bt.Schema.Hash, bt.Schema.Range)] = ck
+			}
+			for _, k := range tb.Keys {
+				ck, ok := bt.KeyOf(k)
+				if !ok {
+					continue
+				}
+				rk := implKey(k, bt.Schema.Hash, bt.Schema.Range)
+				if prev, dup := seen[rk]; dup && prev != ck {
+					add("F-KEYCOLLIDE")
+					add("F-NUMKEYTEXT")
+				}
+				seen[rk] = ck
+			}
+		}
+	}
 	if op.Kind == "BatchWrite" && (open("F-KEYCOLLIDE") || open("F-NUMKEYTEXT")) {
 		for _, tb := range op.Batch {
 			bt := db.Tables[tb.Table]
